@@ -141,8 +141,8 @@ fn check_partition(r: &mut Report, name: &str, stream: &[u8], rec_len: usize, ex
         .collect();
     // the same segments as they look in a whole connection: after the SYN, and with FIN on the segment that carries the
     // last byte (a client that sends its hello and half-closes); the result must not depend on either
-    let shape = (cuts.iter().sum::<usize>() + cuts.len()) % 3;
-    let shape_name = ["data only", "after SYN", "after SYN, FIN on the last segment"][shape];
+    let shape = (cuts.iter().sum::<usize>() + cuts.len()) % 4;
+    let shape_name = ["data only", "after SYN", "after SYN, FIN on the last segment", "after SYN and SYN+ACK, the SYN+ACK repeated behind the first data segment"][shape];
     let mut frames = frames;
     if shape == 2 {
         if let Some(l) = frames.last_mut() {
@@ -150,12 +150,32 @@ fn check_partition(r: &mut Report, name: &str, stream: &[u8], rec_len: usize, ex
             l[off + 13] |= 0x01;
         }
     }
+    // ... nor on bytes that follow the IP packet inside the captured frame (Ethernet padding of short segments, a
+    // captured frame check sequence): every other partition is delivered that way
+    let trailer = (cuts.iter().sum::<usize>() + cuts.len()) % 2 == 1;
+    if trailer {
+        frames = frames.iter().map(|f| pkt::ethernet_with_trailer(f)).collect();
+    }
     let got = guarded(|| {
         let mut a = TlsSeq::new(8);
         if shape >= 1 {
             let _ = a.feed(&pkt::build(&Spec { flags: crate::gen::pkt::SYN, seq: 999, sport: 40001, dport: 443, opts: vec![2, 4, 5, 0xb4], ..Spec::default() }));
         }
-        frames.iter().map(|f| a.feed(f)).collect::<Vec<TlsRes>>()
+        let synack = pkt::build(&Spec { src: 2, dst: 1, flags: crate::gen::pkt::SYN | ACK, seq: 4999, ack: 1000, sport: 443, dport: 40001, opts: vec![2, 4, 5, 0xb4], ..Spec::default() });
+        if shape == 3 {
+            let _ = a.feed(&synack);
+        }
+        frames
+            .iter()
+            .enumerate()
+            .map(|(i, f)| {
+                let x = a.feed(f);
+                if shape == 3 && i == 0 {
+                    let _ = a.feed(&synack);
+                }
+                x
+            })
+            .collect::<Vec<TlsRes>>()
     });
     match got {
         Err(p) => r.dev("C08/panic", "panic", || json!({"stream": name, "cuts": cuts, "route": "packets", "detail": p})),
@@ -176,7 +196,7 @@ fn check_partition(r: &mut Report, name: &str, stream: &[u8], rec_len: usize, ex
                 } else {
                     "result-differs-from-single-segment"
                 };
-                r.dev(format!("C08/packets/{class}"), class, || json!({"stream": name, "cuts": cuts, "route": "packets", "shape": shape_name, "expected_on_segment": completing, "got_on_segments": gi}));
+                r.dev(format!("C08/packets/{class}"), class, || json!({"stream": name, "cuts": cuts, "route": "packets", "shape": shape_name, "ethernet_frames_with_padding_and_fcs": trailer, "expected_on_segment": completing, "got_on_segments": gi}));
             }
         }
     }
